@@ -145,7 +145,7 @@ func (c *ctx) check(sc scenario, tees []int, class string) (base result) {
 	emit := func(sc scenario, res result) []string {
 		l := c.line(sc, res)
 		r.Line(l, res.trace()+" "+res.outcome)
-		return []string{r.Prop + " " + l}
+		return caseLines(r.Prop, l, sc)
 	}
 	oracle := func(sc scenario, res result, lines []string) {
 		teeK := "tee0"
@@ -257,8 +257,70 @@ func lastField(outcome string, done bool) string {
 // pipelined checks the clause about clear text received before the layer
 // switch: the same script with and without extra clear text behind <proceed/>
 // in the same segment must behave identically.
+// caseLines: the protocol line of a scenario plus, as a comment the replay understands, how
+// its units were split across reads (the model does not see that).
+func caseLines(prop, line string, sc scenario) []string {
+	out := []string{prop + " " + line}
+	if sc.split != nil {
+		var f []string
+		for _, n := range sc.split {
+			f = append(f, strconv.Itoa(n))
+		}
+		out = append(out, "#split="+strings.Join(f, ","))
+	}
+	return out
+}
+
+// pipelinedOf reports whether sp is sc with extra clear text behind the first <proceed/> that
+// ends a segment (and nothing else changed).
+func pipelinedOf(sc, sp scenario) bool {
+	if len(sc.clear) != len(sp.clear) || sc.protField() != sp.protField() || sc.othersField() != sp.othersField() ||
+		sc.domain != sp.domain || sc.remote != sp.remote || sc.explicit != sp.explicit || sc.state0 != sp.state0 {
+		return false
+	}
+	found := false
+	for i := range sc.clear {
+		a, b := sc.clear[i], sp.clear[i]
+		switch {
+		case len(a) == len(b):
+			for k := range a {
+				if a[k].String() != b[k].String() {
+					return false
+				}
+			}
+		case !found && len(b) > len(a) && len(a) > 0 && a[len(a)-1].kind == 'P':
+			for k := range a {
+				if a[k].String() != b[k].String() {
+					return false
+				}
+			}
+			found = true
+		default:
+			return false
+		}
+	}
+	return found
+}
+
+// comparePair evaluates the pre-buffer clause on a script and the same script with clear text
+// pipelined behind <proceed/>: they must behave identically.
+func (c *ctx) comparePair(sc, sp scenario, base, res result) {
+	if res.outcome == base.outcome && res.trace() == base.trace() && bytes.Equal(res.prot, base.prot) {
+		return
+	}
+	k := "-"
+	for i := range sc.clear {
+		if len(sp.clear[i]) > len(sc.clear[i]) {
+			k = string(sp.clear[i][len(sc.clear[i])].kind)
+			break
+		}
+	}
+	lines := append(caseLines(c.r.Prop, c.line(sc, base), sc), caseLines(c.r.Prop, c.line(sp, res), sp)...)
+	c.r.Fail("prebuffer-dropped", "pipelined/"+k, lines,
+		fmt.Sprintf("clear text received before the TLS layer was installed is interpreted afterwards: with it pipelined behind <proceed/>: %s %s; without: %s %s", res.trace(), res.outcome, base.trace(), base.outcome))
+}
+
 func (c *ctx) pipelined(sc scenario, extra []unit, tees []int, class string) {
-	r := c.r
 	base := c.check(sc, tees, class)
 	sp := sc
 	sp.clear = nil
@@ -275,14 +337,7 @@ func (c *ctx) pipelined(sc scenario, extra []unit, tees []int, class string) {
 		return
 	}
 	res := c.check(sp, tees, class+"-pipelined")
-	if res.outcome != base.outcome || res.trace() != base.trace() || !bytes.Equal(res.prot, base.prot) {
-		k := "-"
-		if len(extra) > 0 {
-			k = string(extra[0].kind)
-		}
-		r.Fail("prebuffer-dropped", "pipelined/"+k, []string{r.Prop + " " + c.line(sc, base), r.Prop + " " + c.line(sp, res)},
-			fmt.Sprintf("with clear text pipelined behind <proceed/>: %s %s; without: %s %s", res.trace(), res.outcome, base.trace(), base.outcome))
-	}
+	c.comparePair(sc, sp, base, res)
 }
 
 // ---- sni: one feature value, many sessions ------------------------------------------------
@@ -787,19 +842,50 @@ func Run(r *common.Run) error {
 		if err != nil {
 			return err
 		}
+		// every op of the replayed case is executed again exactly as it was emitted: the run
+		// lines with their tee variants (and the split of their units, kept in a comment),
+		// adjacent pairs that are a script and its pipelined version are compared under the
+		// pre-buffer clause, sni lines with their histories
+		var scs []scenario
+		for _, l := range lines {
+			if strings.HasPrefix(l, "#split=") && len(scs) > 0 {
+				var sp []int
+				for _, x := range strings.Split(strings.TrimPrefix(l, "#split="), ",") {
+					n, _ := strconv.Atoi(x)
+					sp = append(sp, n)
+				}
+				scs[len(scs)-1].split = sp
+				continue
+			}
+			f := strings.Fields(l)
+			if len(f) >= 3 && f[0] == "C02" && f[1] == "run" {
+				sc, err := parseScenario(f[2:])
+				if err != nil {
+					return err
+				}
+				scs = append(scs, sc)
+			}
+		}
+		var results []result
+		for _, sc := range scs {
+			results = append(results, c.check(sc, all, "replay"))
+		}
+		for i := 0; i+1 < len(scs); i++ {
+			if pipelinedOf(scs[i], scs[i+1]) {
+				a, b := scs[i], scs[i+1]
+				a.tee, b.tee = 0, 0
+				c.comparePair(a, b, results[i], results[i+1])
+			}
+		}
+		for _, sc := range scs {
+			c.pipelined(sc, []unit{hdr(true), list()}, all, "replay")
+		}
 		for _, l := range lines {
 			f := strings.Fields(l)
 			if len(f) < 3 || f[0] != "C02" {
 				continue
 			}
 			switch f[1] {
-			case "run":
-				sc, err := parseScenario(f[2:])
-				if err != nil {
-					return err
-				}
-				c.check(sc, all, "replay")
-				c.pipelined(sc, []unit{hdr(true), list()}, all, "replay")
 			case "sni":
 				if len(f) < 4 {
 					continue
